@@ -125,6 +125,15 @@ def make_case(rng, *, shape=None, tiny=False, neartie=False):
         m = gen.rand_mdp(rng, n_na=n_na, n_abs=n_abs, K=K, PD=PD, GN=GN, GD=GD, rewards=rew, ID=rng.choice([2, 4]),
                          force_progress=True, uniform_actions=True, ghost=rng.random() < 0.5,
                          init_on_abs=0.15)
+        if not neartie and shape is None and rng.random() < 0.4:
+            # phantom rewards: impossible transitions (probability 0, listed explicitly by the dict_zeros
+            # representations) carry a reward above every reward that can be received
+            top = max(x for s_ in m["R"] for a_ in s_ for x in a_)
+            for s_ in range(m["N"]):
+                for a_ in range(K):
+                    for t_ in range(m["N"]):
+                        if m["P"][s_][a_][t_] == 0 and rng.random() < 0.3:
+                            m["R"][s_][a_][t_] = top + rng.choice([1, 3, 6])
         RE = None
         if neartie:
             # action 1 duplicates action 0 with every reward lowered by 1/EPSD: once both are known their returned
@@ -323,6 +332,11 @@ def collect(res, b, m):
     return o
 
 
+def instance_rmax(mr, listed):
+    cells = [(mr["R"][s][a][t] if mr["P"][s][a][t] > 0 else 0) for s in listed for a in range(mr["K"]) for t in listed]
+    return float(max(cells))
+
+
 def run_real(case):
     """Run RMAX.train_on on the case; returns a dict with raw observations (labels -> abstract indices)."""
     from msdm.algorithms.rmax import RMAX
@@ -331,22 +345,15 @@ def run_real(case):
     rng = random.Random(digest({"m": m, "rep": rep}))
     b = build.build_mdp(mr, rng=rng, **rep)
     out = {"b": b}
-    try:
-        rmax_f = float(np.max(b.mdp.reward_matrix))
-    except Exception as e:                          # noqa: BLE001 - array builders are C06's business
-        out["skip"] = f"reward_matrix raised {type(e).__name__}"
-        return out
-    # the learner asserts rmax == max(reward_matrix); what that matrix should contain is C06's business:
-    # here it only has to agree with the instance (zero fill for impossible transitions), else the case is skipped
+    # rmax is NOT read off msdm's arrays: it is the instance's maximal reward in msdm's own convention (rewards of the
+    # positive-probability transitions between listed states, 0 where no transition exists).  The learner asserts that
+    # this equals max(mdp.reward_matrix); an AssertionError on a legal instance is a failure to return Q-values.
     try:
         listed = [b.sidx(lab) for lab in b.mdp.state_list]
     except ValueError:
         out["skip"] = "state_list names a state outside the instance"
         return out
-    cells = [(mr["R"][s][a][t] if m["P"][s][a][t] > 0 else 0) for s in listed for a in range(m["K"]) for t in listed]
-    if rmax_f != max(cells):
-        out["skip"] = "max(reward_matrix) differs from the instance (array builders are checked by C06)"
-        return out
+    rmax_f = instance_rmax(mr, listed)
     if rmax_f != int(rmax_f):
         out["skip"] = "near-tie family: the maximal reward is a lowered one"
         return out
@@ -381,7 +388,8 @@ def run_real(case):
             else:
                 mw = same_shape_instance(mr, random.Random(digest({"w": m})))
                 bw = build.build_mdp(mw, rng=random.Random(digest({"m": m, "rep": rep})), **rep)
-                if float(np.max(bw.mdp.reward_matrix)) != rmax_f or len(bw.mdp.state_list) != len(b.mdp.state_list):
+                if len(bw.mdp.state_list) != len(b.mdp.state_list) or \
+                        instance_rmax(mw, [bw.sidx(lab) for lab in bw.mdp.state_list]) != rmax_f:
                     out["skip"] = "same-shape warm-up MDP has another maximal reward or state list"
                     return out
             learner.episodes = cfg.get("warm_episodes", 10)
